@@ -438,8 +438,10 @@ func (w *walReader) CloseAndRepair() error {
 					return errors.WithStack(err)
 				}
 			}
-			for i := idx + 1; i <= w.wi.tailIdx; i++ {
-				if err := os.Remove(fileFor(w.id, idx)); err != nil {
+			// remove from the tail downwards so that a crash in the middle
+			// never leaves a hole in the segment numbering
+			for i := w.wi.tailIdx; i > idx; i-- {
+				if err := os.Remove(fileFor(w.id, i)); err != nil {
 					return errors.WithStack(err)
 				}
 			}
